@@ -55,7 +55,11 @@ func agentMain() {
 		// pipes, so its life is invisible to the simulator).
 		gc := exec.Command(os.Args[0], "sleeper")
 		gc.Stdout, gc.Stderr = os.Stdout, os.Stderr
-		gc.Start()
+		if gc.Start() == nil {
+			event(fmt.Sprintf("grandchild %d", gc.Process.Pid))
+		} else {
+			event("grandchild 0")
+		}
 	}
 	if n, _ := strconv.Atoi(os.Getenv("VERIF_AGENT_CHATTER")); n > 0 {
 		go func() {
@@ -65,19 +69,9 @@ func agentMain() {
 			}
 		}()
 	}
-	go func() {
-		buf := make([]byte, 32768)
-		for {
-			n, err := os.Stdin.Read(buf)
-			if n > 0 {
-				os.Stdout.Write(buf[:n])
-			}
-			if err != nil {
-				event("stdin-eof")
-				return
-			}
-		}
-	}()
+	if os.Getenv("VERIF_AGENT_NOREAD") != "1" {
+		go agentEcho(event)
+	}
 	event("ready")
 	in := bufio.NewScanner(control)
 	for in.Scan() {
@@ -89,13 +83,29 @@ func agentMain() {
 	os.Exit(3)
 }
 
+// agentEcho copies standard input to standard output and reports its end.
+func agentEcho(event func(string)) {
+	buf := make([]byte, 32768)
+	for {
+		n, err := os.Stdin.Read(buf)
+		if n > 0 {
+			os.Stdout.Write(buf[:n])
+		}
+		if err != nil {
+			event("stdin-eof")
+			return
+		}
+	}
+}
+
 func main() {
 	if len(os.Args) > 1 && os.Args[1] == "agent" {
 		agentMain()
 		return
 	}
 	if len(os.Args) > 1 && os.Args[1] == "sleeper" {
-		time.Sleep(4 * time.Second)
+		// Outlives every bound of the scenario; the simulator removes it.
+		time.Sleep(40 * time.Second)
 		return
 	}
 	var lock *daemon.Lock
